@@ -470,7 +470,14 @@ LOOP:
 }
 
 func TestVerifC13V0(t *testing.T) {
-	r := vr.Start("C13", "v0", 100*time.Second, 18*time.Minute)
+	// C17 reuses the unsolicited-answer cases of this harness as its part "unsolicited" (VERIF_C13_AS_C17=1): hostile input may cost
+	// the sender its connection and nobody else's
+	asC17 := os.Getenv("VERIF_C13_AS_C17") != ""
+	pid, part := "C13", "v0"
+	if asC17 {
+		pid, part = "C17", "unsolicited"
+	}
+	r := vr.Start(pid, part, 100*time.Second, 18*time.Minute)
 	defer r.Finish()
 	defer c13hand.Cleanup()
 	r.Rule = "every adversary strategy with <= L lies over heights 1..5 of a 6-block canonical chain with a validator addition: (height, successive peer) -> lie from the menu; " +
@@ -512,7 +519,7 @@ func TestVerifC13V0(t *testing.T) {
 	confirmed, unconfirmed := map[string]bool{}, map[string]string{}
 	run := func(c c13Case) {
 		r.Eval()
-		if c.Strategy.NumLies() > 0 {
+		if c.Strategy.NumLies() > 0 || c.Push > 0 || c.Inflate > 0 {
 			r.NTCount(1)
 		}
 		tc := time.Now()
@@ -523,6 +530,10 @@ func TestVerifC13V0(t *testing.T) {
 		}
 		for _, d := range res.Diags {
 			r.Add("diag_"+d, 1)
+			if asC17 && res.Key == "" && c.Push > 0 && c.Strategy.NumLies() == 0 && d == "honest_peer_stopped_as_collateral" {
+				res.Key = "blockchain/v0:honest-peer-dropped-because-of-another-peers-unsolicited-block"
+				res.What = fmt.Sprintf("every asked peer answered with the canonical block; a peer nobody asked sent %q for height %d; an honest peer lost its connection", c.PushLie, c.Push)
+			}
 		}
 		if res.Inconcl != "" {
 			r.Cap("v0: " + res.Inconcl)
@@ -562,35 +573,9 @@ func TestVerifC13V0(t *testing.T) {
 			r.Sample(map[string]interface{}{"strategy": c.Strategy.String(), "natural": c.Natural, "reverse": c.Reverse, "outcome": res.Outcome})
 		}
 	}
-	c13kit.Enumerate(menuFor, maxLies, func(s c13kit.Strategy) bool {
-		if stop {
-			return false
-		}
-		variants := []c13Case{{Strategy: s}}
-		if s.NumLies() <= 1 {
-			variants = append(variants, c13Case{Strategy: s, Natural: true})
-		}
-		if s.NumLies() <= vr.Pick(1, 2) {
-			variants = append(variants, c13Case{Strategy: s, Reverse: true})
-		}
-		for _, c := range variants {
-			k++
-			if !r.Mine(k) {
-				continue
-			}
-			if r.Deadline(fmt.Sprintf("v0 strategies with %d lies", s.NumLies())) {
-				stop = true
-				return false
-			}
-			run(c)
-		}
-		if s.NumLies()-1 > levelDone {
-			levelDone = s.NumLies() - 1
-		}
-		return true
-	})
+	// the few special schedules first (they must not fall victim to the time budget), the strategy enumeration after them
 	// false status: the same <= 1-lie strategies with the first peer of the top height claiming two more heights than it has
-	if !stop {
+	if !asC17 {
 		c13kit.Enumerate(func(int) []c13kit.Lie { return c13kit.FullMenu() }, 1, func(s c13kit.Strategy) bool {
 			for _, v := range []c13Case{{Strategy: s, Inflate: 2}, {Strategy: s, Natural: true, Inflate: 2}, {Strategy: s, Inflate: 2, InflateLate: true}} {
 				k++
@@ -628,6 +613,33 @@ func TestVerifC13V0(t *testing.T) {
 			return true
 		})
 	}
+	c13kit.Enumerate(menuFor, maxLies, func(s c13kit.Strategy) bool {
+		if stop || asC17 {
+			return false
+		}
+		variants := []c13Case{{Strategy: s}}
+		if s.NumLies() <= 1 {
+			variants = append(variants, c13Case{Strategy: s, Natural: true})
+		}
+		if s.NumLies() <= vr.Pick(1, 2) {
+			variants = append(variants, c13Case{Strategy: s, Reverse: true})
+		}
+		for _, c := range variants {
+			k++
+			if !r.Mine(k) {
+				continue
+			}
+			if r.Deadline(fmt.Sprintf("v0 strategies with %d lies", s.NumLies())) {
+				stop = true
+				return false
+			}
+			run(c)
+		}
+		if s.NumLies()-1 > levelDone {
+			levelDone = s.NumLies() - 1
+		}
+		return true
+	})
 	if !stop {
 		levelDone = maxLies
 	}
